@@ -31,6 +31,20 @@ func c12Groups(in []string) (head, probes []string) {
 	return in, nil
 }
 
+func c12SplitAll(in []string) [][]string {
+	var groups [][]string
+	cur := []string{}
+	for _, t := range in {
+		if t == ";" {
+			groups = append(groups, cur)
+			cur = []string{}
+		} else {
+			cur = append(cur, t)
+		}
+	}
+	return append(groups, cur)
+}
+
 func c12Pairs(toks []string) (ids []idx.ValidatorID, ws []pos.Weight) {
 	for i := 0; i+1 < len(toks); i += 2 {
 		id, _ := strconv.ParseUint(toks[i], 10, 32)
@@ -183,6 +197,94 @@ func c12Run(in []string) (obs []string) {
 		}
 		vu.Stat("D")
 		return append(c12Obs(vs, probes), "RAW", vu.Hex(raw))
+	case "S":
+		// successive decodes into ONE reused target
+		mode := in[1]
+		var sets [][]string
+		var probes2 []string
+		for _, g := range c12SplitAll(in[2:]) {
+			if len(g) == 0 {
+				continue
+			}
+			if g[0] == "P" {
+				probes2 = g[1:]
+			} else {
+				sets = append(sets, g[1:])
+			}
+		}
+		target := &pos.Validators{}
+		es := &abft.EpochState{Epoch: 1, Validators: &pos.Validators{}}
+		var out []string
+		for k, set := range sets {
+			vs := c12Construct("set", set)
+			raw, err := rlp.EncodeToBytes(vs)
+			if err != nil {
+				return []string{"ERR", "enc"}
+			}
+			cur := target
+			switch mode {
+			case "direct":
+				err = rlp.DecodeBytes(raw, target)
+			case "stream":
+				err = target.DecodeRLP(rlp.NewStream(bytes.NewReader(raw), 0))
+			default: // "epoch": a long-lived struct whose *Validators field is non-nil: rlp reuses the pointee
+				var wraw []byte
+				wraw, err = rlp.EncodeToBytes(&abft.EpochState{Epoch: idx.Epoch(k + 2), Validators: vs})
+				if err == nil {
+					err = rlp.DecodeBytes(wraw, es)
+				}
+				cur = es.Validators
+			}
+			if err != nil || cur == nil {
+				return append(out, "ERR")
+			}
+			re, err := rlp.EncodeToBytes(cur)
+			if err != nil {
+				return append(out, "ERR")
+			}
+			out = append(out, "STEP")
+			out = append(out, c12Obs(cur, probes2)...)
+			out = append(out, "RAW", vu.Hex(re))
+		}
+		vu.Stat("S_" + mode)
+		return out
+	case "U":
+		var sets [][]string
+		var probes2 []string
+		for _, g := range c12SplitAll(in[1:]) {
+			if len(g) == 0 {
+				continue
+			}
+			if g[0] == "P" {
+				probes2 = g[1:]
+			} else {
+				sets = append(sets, g[1:])
+			}
+		}
+		b := pos.NewBuilder()
+		ids1, ws1 := c12Pairs(sets[0])
+		for i := range ids1 {
+			b.Set(ids1[i], ws1[i])
+		}
+		v1 := b.Build()
+		out := append([]string{"V1"}, c12Obs(v1, probes2)...)
+		ids2, ws2 := c12Pairs(sets[1])
+		for i := range ids2 {
+			b.Set(ids2[i], ws2[i]) // the builder is mutated after Build
+		}
+		out = append(append(out, "V1AGAIN"), c12Obs(v1, probes2)...)
+		v2 := b.Build()
+		out = append(append(out, "V2"), c12Obs(v2, probes2)...)
+		cp := v1.Copy()
+		b1 := v1.Builder()
+		for i := range ids2 {
+			b1.Set(ids2[i], ws2[i]) // a builder taken from v1 is mutated
+		}
+		_ = b1.Build()
+		out = append(append(out, "V1FINAL"), c12Obs(v1, probes2)...)
+		out = append(append(out, "COPY"), c12Obs(cp, probes2)...)
+		vu.Stat("U")
+		return out
 	case "G":
 		b := pos.NewBigBuilder()
 		toks := head[1:]
@@ -430,6 +532,65 @@ func c12WordFamilies(r *rand.Rand) []string {
 	return pairs
 }
 
+// valid small set (total far below the limit) over a shared id pool, so that successive sets are
+// disjoint, overlapping, subsets, supersets, equal or empty
+func c12PoolSet(r *rand.Rand, pool []uint64, from, to int) []string {
+	var out []string
+	for _, id := range pool[from:to] {
+		out = append(out, vu.U64(id), vu.U64(uint64(1+r.Intn(1000))))
+	}
+	return out
+}
+
+func c12GenReuse(r *rand.Rand, emit func(...string)) {
+	pool := make([]uint64, 12)
+	for i := range pool {
+		pool[i] = uint64(1 + i*3)
+		if r.Intn(6) == 0 {
+			pool[i] = uint64(r.Uint32())
+		}
+	}
+	k := 2 + r.Intn(3)
+	var sets [][]string
+	a, b := r.Intn(4), 4+r.Intn(5)
+	sets = append(sets, c12PoolSet(r, pool, a, b))
+	for len(sets) < k {
+		switch r.Intn(7) {
+		case 0: // disjoint
+			sets = append(sets, c12PoolSet(r, pool, b, 12))
+		case 1: // overlapping
+			sets = append(sets, c12PoolSet(r, pool, (a+b)/2, 12))
+		case 2: // subset
+			sets = append(sets, c12PoolSet(r, pool, a, a+1+r.Intn(b-a)))
+		case 3: // superset
+			sets = append(sets, c12PoolSet(r, pool, 0, 12))
+		case 4: // empty
+			sets = append(sets, nil)
+		case 5: // the same set again (same weights)
+			sets = append(sets, sets[len(sets)-1])
+		default: // same ids, other weights
+			sets = append(sets, c12PoolSet(r, pool, a, b))
+		}
+	}
+	probes := []string{"P"}
+	for _, id := range pool {
+		probes = append(probes, vu.U64(id))
+	}
+	probes = append(probes, "4000000001")
+	mode := []string{"direct", "epoch", "stream"}[r.Intn(3)]
+	in := []string{"S", mode}
+	for _, s := range sets {
+		in = append(append(in, ";", "T"), s...)
+	}
+	emit(append(append(in, ";"), probes...)...)
+	if r.Intn(2) == 0 {
+		in = []string{"U", ";", "T"}
+		in = append(in, sets[0]...)
+		in = append(append(in, ";", "T"), sets[1]...)
+		emit(append(append(in, ";"), probes...)...)
+	}
+}
+
 func init() {
 	bmodes := []string{"set", "arr", "eq", "copy", "bld"}
 	vu.Register("C12", &vu.Prop{
@@ -465,6 +626,10 @@ func init() {
 				in := append([]string{"R", "plain"}, huge...)
 				emit(append(in, ";", "1000000", "1000013", "7")...)
 				vu.Stat("huge_set_6100")
+			}
+			// second-use family: 2-4 successive decodes into one reused target; one builder used twice
+			for i := 0; i < n/6+10; i++ {
+				c12GenReuse(r, emit)
 			}
 			for i := 0; i < n; i++ {
 				pairs := c12RandSmall(r)
